@@ -18,19 +18,26 @@ import (
 // reallocation, fan-out reallocation, encode / decode page, evict, deferred
 // page load), bitset, InMemoryCommitter.
 //
-// Idealised: crypto.Hash is a collision-free uninterpreted function H that
-// never returns the all-zero digest (the root of the EMPTY trie is the zero
-// digest; hitting it is a pre-image attack). With H injective, equal roots
-// mean equal (path, children, leaf remainders) structure all the way down.
+// Idealised: crypto.Hash is a collision-free uninterpreted function H. With H
+// injective, equal roots mean equal (path, children, leaf remainders)
+// structure all the way down. (Nothing here needs H(x) != 0, the root of the
+// empty trie; that assumption would cost one solver query per hash call.)
 //
-// Bounds: keys of verifC17KeyLen bytes (2; thorough 3), fully symbolic; a
-// sequence of L operations (see each harness), each Add or Delete chosen by
-// the solver; page configurations from the table verifC17Configs.
+// Bounds: fully symbolic keys of one fixed length; every operation is an Add
+// or a Delete of a new symbolic key, chosen by the solver.
+//   VerifC17History*: 3 operations on 2-byte keys (thorough also 3-byte keys),
+//     no storage action before the final RootHash.
+//   VerifC17Quick* / VerifC17Storage*: 3 operations on 2-byte keys, the first an
+//     Add, a storage action (commit / evict / refused evict / reload / crash)
+//     after the first and after the second; quick: four fixed schedules;
+//     thorough: all 36 pairs of actions.
+//   VerifC17Deep*: Add, Add, Add, one storage action, one free operation.
+//   Page configurations: verifC17Configs[0..1] (thorough: [0..3]).
+// Outside: longer keys and histories, SQLite committer, a crash in the middle
+// of Commit (pages stored, root page not yet), concurrent use.
 
 func verifC17Hash(data []byte) crypto.Digest {
-	d := crypto.Digest(vr.Hash32("H", data))
-	vr.Assume(d != crypto.Digest{})
-	return d
+	return crypto.Digest(vr.Hash32("H", data))
 }
 
 // page configurations: tiny pages so that a handful of nodes crosses page
@@ -174,15 +181,15 @@ func verifC17Key(n int) []byte {
 	return k
 }
 
-func verifC17Config(n int) MemoryConfig {
-	return verifC17Configs[vr.Choice("config", n)]
-}
-
-// one Add or Delete of a fresh symbolic key, checked against the ghost set
-func verifC17Op(mt *Trie, g *verifC17Ghost, keyLen int) {
+// one Add or Delete of a fresh symbolic key, checked against the ghost set;
+// returns whether the trie reported a change
+func verifC17Op(mt *Trie, g *verifC17Ghost, keyLen int, forceAdd bool, fixedKey []byte) (changed bool) {
 	k := verifC17Key(keyLen)
+	if fixedKey != nil {
+		k = append([]byte{}, fixedKey...) // a bound of the caller: this operation's key is given
+	}
 	was := g.member(verifC17Pack(k))
-	if vr.Bool("op.add") {
+	if forceAdd || vr.Bool("op.add") {
 		ok, err := mt.Add(k)
 		vr.Assert("c17.add.no-error", err == nil)
 		vr.Assert("c17.add.true-iff-absent", ok == (was == 0))
@@ -190,6 +197,7 @@ func verifC17Op(mt *Trie, g *verifC17Ghost, keyLen int) {
 			vr.Reach("readd")
 		}
 		g.add(k)
+		changed = ok
 	} else {
 		ok, err := mt.Delete(k)
 		vr.Assert("c17.delete.no-error", err == nil)
@@ -198,7 +206,9 @@ func verifC17Op(mt *Trie, g *verifC17Ghost, keyLen int) {
 			vr.Reach("deleted")
 		}
 		g.del(k)
+		changed = ok
 	}
+	return changed
 }
 
 // final obligations: the root is the specification's root of the ghost set,
@@ -231,13 +241,69 @@ func verifC17CheckRoot(mt *Trie, g *verifC17Ghost, cfg MemoryConfig) {
 	}
 }
 
+// verifC17Walk visits EVERY node below nid through the cache (so every page
+// that holds a live node must load and decode), recomputes each inner node's
+// digest from its children as the specification says and compares it with the
+// digest stored in the node. The structure is concrete and equal inputs give
+// the same H term, so this costs (almost) no solver queries.
+func verifC17Walk(mt *Trie, nid storedNodeIdentifier, path []byte, leaves *int) (leaf bool, h []byte) {
+	n, err := mt.cache.getNode(nid)
+	vr.Assert("c17.walk.node-loads", err == nil && n != nil)
+	if err != nil || n == nil {
+		return true, nil
+	}
+	if n.leaf() {
+		*leaves++
+		vr.Assert("c17.walk.leaf-length", len(path)+len(n.hash) == mt.elementLength)
+		return true, n.hash
+	}
+	buf := []byte{byte(len(path))}
+	buf = append(buf, path...)
+	children := append([]childEntry{}, n.children...)
+	for _, c := range children {
+		sub := make([]byte, 0, len(path)+1)
+		sub = append(sub, path...)
+		sub = append(sub, c.hashIndex)
+		cl, ch := verifC17Walk(mt, c.id, sub, leaves)
+		kind := byte(1)
+		if cl {
+			kind = 0
+		}
+		buf = append(buf, kind, byte(len(ch)), c.hashIndex)
+		buf = append(buf, ch...)
+	}
+	d := verifC17Hash(buf)
+	vr.Assert("c17.walk.stored-digest-length", len(n.hash) == len(d))
+	if len(n.hash) == len(d) {
+		vr.Assert("c17.walk.stored-digest", crypto.Digest(n.hash) == d)
+	}
+	return false, d[:]
+}
+
+// the whole stored trie is a well-formed Merkle trie with `want` leaves whose
+// root digest is `root` (call on a committed trie: inner nodes carry digests)
+func verifC17WalkRoot(mt *Trie, root crypto.Digest, want int) {
+	if mt.root == storedNodeIdentifierNull {
+		vr.Assert("c17.walk.empty", want == 0)
+		return
+	}
+	leaves := 0
+	leaf, h := verifC17Walk(mt, mt.root, nil, &leaves)
+	kind := byte(1)
+	if leaf {
+		kind = 0
+	}
+	vr.Assert("c17.walk.root", verifC17Hash(append([]byte{kind}, h...)) == root)
+	vr.Assert("c17.walk.leaf-count", leaves == want)
+}
+
 // encodePage, line for line, except that it writes into a right-sized buffer
 // instead of the 768 KB staging buffer commit() hands in: the engine's arrays
 // are persistent values, so every single byte store into that buffer copies
 // 768 K cells (measured: ~5 s per path, all of it in these stores). A buffer
 // that is too small panics (index out of range), i.e. shows up as a violation.
 // VerifC17EncodePageModel checks this model against the real encodePage.
-func verifC17EncodePage(mtc *merkleTrieCache, nodeIDs map[storedNodeIdentifier]*node, _ []byte) []byte {
+func verifC17EncodePage(mtc *merkleTrieCache, nodeIDs map[storedNodeIdentifier]*node, staging []byte) []byte {
 	serializedBuffer := make([]byte, 32+96*len(nodeIDs))
 	version := binary.PutUvarint(serializedBuffer[:], nodePageVersion)
 	length := binary.PutVarint(serializedBuffer[version:], int64(len(nodeIDs)))
@@ -252,22 +318,494 @@ func verifC17EncodePage(mtc *merkleTrieCache, nodeIDs map[storedNodeIdentifier]*
 }
 
 //verif:stub github.com/algorand/go-algorand/crypto.Hash = verifC17Hash
-//verif:stub (*github.com/algorand/go-algorand/crypto/merkletrie.merkleTrieCache).encodePage = verifC17EncodePage
 
-// History independence without intermediate commits: L operations on a new
-// trie, then RootHash (which commits once).
+// ---- history independence without intermediate commits ----
 //
-//verif:harness prop=C17 reach=done,readd,deleted,empty,single,sharedprefix unwind=16 budget=200 thorough.budget=2400
-func VerifC17History() {
-	keyLen := vr.Param(2, 3)
-	L := vr.Param(3, 4)
-	cfg := verifC17Config(vr.Param(2, 4))
+// L operations on a new trie, then RootHash (which commits once); one harness
+// per page configuration so that they run in parallel.
+
+func verifC17History(cfg MemoryConfig, L, keyLen int) {
 	mt, err := MakeTrie(&InMemoryCommitter{}, cfg)
 	vr.Assert("c17.make", err == nil)
 	g := &verifC17Ghost{}
 	for i := 0; i < L; i++ {
-		verifC17Op(mt, g, keyLen)
+		verifC17Op(mt, g, keyLen, false, nil)
 	}
 	verifC17CheckRoot(mt, g, cfg)
 	vr.Reach("done")
+}
+
+// both tiers: 3 free operations, 2-byte keys. (4 free operations do not fit the
+// thorough budget: ~0.4 s per query on the longer path conditions; 4-operation
+// histories are covered in the Add,Add,Add,action,op form by VerifC17Deep*.)
+
+//verif:harness prop=C17 reach=done,readd,deleted,empty,single,sharedprefix unwind=16 budget=480
+//verif:stub (*github.com/algorand/go-algorand/crypto/merkletrie.merkleTrieCache).encodePage = verifC17EncodePage
+func VerifC17HistoryCfg0() { verifC17History(verifC17Configs[0], 3, 2) }
+
+//verif:harness prop=C17 reach=done,readd,deleted,empty,single,sharedprefix unwind=16 budget=480
+//verif:stub (*github.com/algorand/go-algorand/crypto/merkletrie.merkleTrieCache).encodePage = verifC17EncodePage
+func VerifC17HistoryCfg1() { verifC17History(verifC17Configs[1], 3, 2) }
+
+// thorough only: 3 free operations on 3-byte keys (two levels of shared prefix), all four configurations
+
+//verif:harness prop=C17 tier=thorough reach=done,readd,deleted,empty,single,sharedprefix unwind=16 budget=2800
+//verif:stub (*github.com/algorand/go-algorand/crypto/merkletrie.merkleTrieCache).encodePage = verifC17EncodePage
+func VerifC17History3ByteCfg0() { verifC17History(verifC17Configs[0], 3, 3) }
+
+//verif:harness prop=C17 tier=thorough reach=done,readd,deleted,empty,single,sharedprefix unwind=16 budget=2800
+//verif:stub (*github.com/algorand/go-algorand/crypto/merkletrie.merkleTrieCache).encodePage = verifC17EncodePage
+func VerifC17History3ByteCfg1() { verifC17History(verifC17Configs[1], 3, 3) }
+
+//verif:harness prop=C17 tier=thorough reach=done,readd,deleted,empty,single,sharedprefix unwind=16 budget=2800
+//verif:stub (*github.com/algorand/go-algorand/crypto/merkletrie.merkleTrieCache).encodePage = verifC17EncodePage
+func VerifC17History3ByteCfg2() { verifC17History(verifC17Configs[2], 3, 3) }
+
+//verif:harness prop=C17 tier=thorough reach=done,readd,deleted,empty,single,sharedprefix unwind=16 budget=2800
+//verif:stub (*github.com/algorand/go-algorand/crypto/merkletrie.merkleTrieCache).encodePage = verifC17EncodePage
+func VerifC17History3ByteCfg3() { verifC17History(verifC17Configs[3], 3, 3) }
+
+// ---- commits, evictions, reloads and crashes between the operations ----
+//
+// After every operation but the last a storage action is taken:
+const (
+	verifC17None       = iota // nothing
+	verifC17Commit            // Commit()
+	verifC17Evict             // Evict(true): commit, then drop pages down to CachedNodesCount
+	verifC17EvictFalse        // Evict(false): refused iff there are uncommitted changes, else evicts
+	verifC17Reload            // Commit(), then a NEW Trie over the same committer (root page + lazy page loads)
+	verifC17Crash             // a NEW Trie over the same committer WITHOUT committing: the set reverts to the last commit
+	verifC17Actions
+)
+
+type verifC17Store struct {
+	mc    *InMemoryCommitter
+	cfg   MemoryConfig
+	mt    *Trie
+	g     *verifC17Ghost
+	dirty bool     // a successful Add/Delete since the last commit
+	saved []uint32 // ghost "present" flags at the last commit
+}
+
+func (s *verifC17Store) committed() {
+	s.dirty = false
+	s.saved = append([]uint32{}, s.g.present...)
+}
+
+func (s *verifC17Store) reopen() {
+	mt, err := MakeTrie(s.mc, s.cfg)
+	vr.Assert("c17.reload.make", err == nil && mt != nil)
+	s.mt = mt
+	s.dirty = false
+}
+
+func (s *verifC17Store) act(a int) {
+	switch a {
+	case verifC17Commit:
+		_, err := s.mt.Commit()
+		vr.Assert("c17.commit.no-error", err == nil)
+		s.committed()
+	case verifC17Evict:
+		_, err := s.mt.Evict(true)
+		vr.Assert("c17.evict.no-error", err == nil)
+		s.committed()
+		vr.Reach("evicted")
+	case verifC17EvictFalse:
+		_, err := s.mt.Evict(false)
+		if s.dirty {
+			vr.Reach("evictrefused")
+			vr.Assert("c17.evict-false.refused-when-dirty", err == ErrUnableToEvictPendingCommits)
+		} else {
+			vr.Assert("c17.evict-false.ok-when-clean", err == nil)
+		}
+	case verifC17Reload:
+		_, err := s.mt.Commit()
+		vr.Assert("c17.commit.no-error", err == nil)
+		s.committed()
+		s.reopen()
+		vr.Reach("reloaded")
+	case verifC17Crash:
+		// everything since the last commit is lost
+		s.reopen()
+		for j := range s.g.present {
+			if j < len(s.saved) {
+				s.g.present[j] = s.saved[j]
+			} else {
+				s.g.present[j] = 0
+			}
+		}
+		vr.Reach("crashed")
+	}
+}
+
+// verifC17Storage: 3 operations, the first an Add (a Delete on the empty trie
+// returns at once and is covered by VerifC17History*), a storage action after
+// the first (picked from first) and after the second (picked from rest).
+// Then: root == specification root of the ghost set; Commit; re-open from the
+// committer: same root, and a walk over EVERY stored node re-derives all
+// digests (every live page must still be there, with the right content).
+func verifC17Storage(cfg MemoryConfig, first, rest []int) {
+	verifC17StorageN(cfg, 3, 1, nil, first, rest)
+}
+
+// L operations, the first `adds` of them Adds with no storage action between
+// them; first = actions after operation 1 (when adds == 1), rest = actions
+// after the later operations. fill, if given, fixes the keys of the first
+// len(fill) operations (concrete keys instead of symbolic ones).
+func verifC17StorageN(cfg MemoryConfig, L, adds int, fill [][]byte, first, rest []int) {
+	keyLen := 2
+	s := &verifC17Store{mc: &InMemoryCommitter{}, cfg: cfg, g: &verifC17Ghost{}}
+	s.reopen()
+	for i := 0; i < L; i++ {
+		var fixed []byte
+		if i < len(fill) {
+			fixed = fill[i]
+		}
+		if verifC17Op(s.mt, s.g, keyLen, i < adds, fixed) {
+			s.dirty = true
+		}
+		if i == L-1 {
+			break
+		}
+		if i < adds-1 {
+			continue // the trie is being filled
+		}
+		acts := rest
+		if i == 0 {
+			acts = first
+		}
+		a := acts[0]
+		if len(acts) > 1 {
+			a = acts[vr.Choice("action", len(acts))]
+		}
+		s.act(a)
+	}
+	root, err := s.mt.RootHash()
+	vr.Assert("c17.roothash.no-error", err == nil)
+	set := s.g.sorted()
+	vr.Assert("c17.root-equals-specification", root == verifC17SpecRoot(set))
+
+	_, err = s.mt.Commit()
+	vr.Assert("c17.commit.no-error", err == nil)
+	s.reopen()
+	root2, err := s.mt.RootHash()
+	vr.Assert("c17.reload.roothash.no-error", err == nil)
+	vr.Assert("c17.reload.same-root", root2 == root)
+	// every live node is still in storage and carries the right digest
+	verifC17WalkRoot(s.mt, root, len(set))
+	if len(set) >= 2 {
+		vr.Reach("two")
+	}
+	vr.Reach("done")
+}
+
+// ---- quick tier: one schedule per harness, two page configurations ----
+
+//verif:harness prop=C17 tier=quick reach=done,readd,deleted,two,evicted,reloaded unwind=16 budget=480
+//verif:stub (*github.com/algorand/go-algorand/crypto/merkletrie.merkleTrieCache).encodePage = verifC17EncodePage
+func VerifC17QuickEvictReload() {
+	verifC17Storage(verifC17Configs[0], []int{verifC17Evict}, []int{verifC17Reload})
+}
+
+//verif:harness prop=C17 tier=quick reach=done,readd,deleted,two,evicted,reloaded unwind=16 budget=480
+//verif:stub (*github.com/algorand/go-algorand/crypto/merkletrie.merkleTrieCache).encodePage = verifC17EncodePage
+func VerifC17QuickReloadEvict() {
+	verifC17Storage(verifC17Configs[1], []int{verifC17Reload}, []int{verifC17Evict})
+}
+
+//verif:harness prop=C17 tier=quick reach=done,readd,deleted,two,crashed unwind=16 budget=480
+//verif:stub (*github.com/algorand/go-algorand/crypto/merkletrie.merkleTrieCache).encodePage = verifC17EncodePage
+func VerifC17QuickCommitCrash() {
+	verifC17Storage(verifC17Configs[0], []int{verifC17Commit}, []int{verifC17Crash})
+}
+
+//verif:harness prop=C17 tier=quick reach=done,readd,deleted,two,evictrefused unwind=16 budget=480
+//verif:stub (*github.com/algorand/go-algorand/crypto/merkletrie.merkleTrieCache).encodePage = verifC17EncodePage
+func VerifC17QuickCommitEvictFalse() {
+	verifC17Storage(verifC17Configs[1], []int{verifC17Commit}, []int{verifC17EvictFalse})
+}
+
+// ---- thorough tier: every pair of actions, four page configurations ----
+// (one harness per configuration and first action, so that they run in
+// parallel; the second action is the solver's choice among all six)
+
+var verifC17All = []int{verifC17None, verifC17Commit, verifC17Evict, verifC17EvictFalse, verifC17Reload, verifC17Crash}
+
+//verif:harness prop=C17 tier=thorough reach=done,readd,deleted,two,evicted,evictrefused,reloaded,crashed unwind=16 budget=2800
+//verif:stub (*github.com/algorand/go-algorand/crypto/merkletrie.merkleTrieCache).encodePage = verifC17EncodePage
+func VerifC17StorageCfg0None() {
+	verifC17Storage(verifC17Configs[0], []int{verifC17None}, verifC17All)
+}
+
+//verif:harness prop=C17 tier=thorough reach=done,readd,deleted,two,evicted,evictrefused,reloaded,crashed unwind=16 budget=2800
+//verif:stub (*github.com/algorand/go-algorand/crypto/merkletrie.merkleTrieCache).encodePage = verifC17EncodePage
+func VerifC17StorageCfg0Commit() {
+	verifC17Storage(verifC17Configs[0], []int{verifC17Commit}, verifC17All)
+}
+
+//verif:harness prop=C17 tier=thorough reach=done,readd,deleted,two,evicted,evictrefused,reloaded,crashed unwind=16 budget=2800
+//verif:stub (*github.com/algorand/go-algorand/crypto/merkletrie.merkleTrieCache).encodePage = verifC17EncodePage
+func VerifC17StorageCfg0Evict() {
+	verifC17Storage(verifC17Configs[0], []int{verifC17Evict}, verifC17All)
+}
+
+//verif:harness prop=C17 tier=thorough reach=done,readd,deleted,two,evicted,evictrefused,reloaded,crashed unwind=16 budget=2800
+//verif:stub (*github.com/algorand/go-algorand/crypto/merkletrie.merkleTrieCache).encodePage = verifC17EncodePage
+func VerifC17StorageCfg0EvictFalse() {
+	verifC17Storage(verifC17Configs[0], []int{verifC17EvictFalse}, verifC17All)
+}
+
+//verif:harness prop=C17 tier=thorough reach=done,readd,deleted,two,evicted,evictrefused,reloaded,crashed unwind=16 budget=2800
+//verif:stub (*github.com/algorand/go-algorand/crypto/merkletrie.merkleTrieCache).encodePage = verifC17EncodePage
+func VerifC17StorageCfg0Reload() {
+	verifC17Storage(verifC17Configs[0], []int{verifC17Reload}, verifC17All)
+}
+
+//verif:harness prop=C17 tier=thorough reach=done,readd,deleted,two,evicted,evictrefused,reloaded,crashed unwind=16 budget=2800
+//verif:stub (*github.com/algorand/go-algorand/crypto/merkletrie.merkleTrieCache).encodePage = verifC17EncodePage
+func VerifC17StorageCfg0Crash() {
+	verifC17Storage(verifC17Configs[0], []int{verifC17Crash}, verifC17All)
+}
+
+//verif:harness prop=C17 tier=thorough reach=done,readd,deleted,two,evicted,evictrefused,reloaded,crashed unwind=16 budget=2800
+//verif:stub (*github.com/algorand/go-algorand/crypto/merkletrie.merkleTrieCache).encodePage = verifC17EncodePage
+func VerifC17StorageCfg1None() {
+	verifC17Storage(verifC17Configs[1], []int{verifC17None}, verifC17All)
+}
+
+//verif:harness prop=C17 tier=thorough reach=done,readd,deleted,two,evicted,evictrefused,reloaded,crashed unwind=16 budget=2800
+//verif:stub (*github.com/algorand/go-algorand/crypto/merkletrie.merkleTrieCache).encodePage = verifC17EncodePage
+func VerifC17StorageCfg1Commit() {
+	verifC17Storage(verifC17Configs[1], []int{verifC17Commit}, verifC17All)
+}
+
+//verif:harness prop=C17 tier=thorough reach=done,readd,deleted,two,evicted,evictrefused,reloaded,crashed unwind=16 budget=2800
+//verif:stub (*github.com/algorand/go-algorand/crypto/merkletrie.merkleTrieCache).encodePage = verifC17EncodePage
+func VerifC17StorageCfg1Evict() {
+	verifC17Storage(verifC17Configs[1], []int{verifC17Evict}, verifC17All)
+}
+
+//verif:harness prop=C17 tier=thorough reach=done,readd,deleted,two,evicted,evictrefused,reloaded,crashed unwind=16 budget=2800
+//verif:stub (*github.com/algorand/go-algorand/crypto/merkletrie.merkleTrieCache).encodePage = verifC17EncodePage
+func VerifC17StorageCfg1EvictFalse() {
+	verifC17Storage(verifC17Configs[1], []int{verifC17EvictFalse}, verifC17All)
+}
+
+//verif:harness prop=C17 tier=thorough reach=done,readd,deleted,two,evicted,evictrefused,reloaded,crashed unwind=16 budget=2800
+//verif:stub (*github.com/algorand/go-algorand/crypto/merkletrie.merkleTrieCache).encodePage = verifC17EncodePage
+func VerifC17StorageCfg1Reload() {
+	verifC17Storage(verifC17Configs[1], []int{verifC17Reload}, verifC17All)
+}
+
+//verif:harness prop=C17 tier=thorough reach=done,readd,deleted,two,evicted,evictrefused,reloaded,crashed unwind=16 budget=2800
+//verif:stub (*github.com/algorand/go-algorand/crypto/merkletrie.merkleTrieCache).encodePage = verifC17EncodePage
+func VerifC17StorageCfg1Crash() {
+	verifC17Storage(verifC17Configs[1], []int{verifC17Crash}, verifC17All)
+}
+
+//verif:harness prop=C17 tier=thorough reach=done,readd,deleted,two,evicted,evictrefused,reloaded,crashed unwind=16 budget=2800
+//verif:stub (*github.com/algorand/go-algorand/crypto/merkletrie.merkleTrieCache).encodePage = verifC17EncodePage
+func VerifC17StorageCfg2None() {
+	verifC17Storage(verifC17Configs[2], []int{verifC17None}, verifC17All)
+}
+
+//verif:harness prop=C17 tier=thorough reach=done,readd,deleted,two,evicted,evictrefused,reloaded,crashed unwind=16 budget=2800
+//verif:stub (*github.com/algorand/go-algorand/crypto/merkletrie.merkleTrieCache).encodePage = verifC17EncodePage
+func VerifC17StorageCfg2Commit() {
+	verifC17Storage(verifC17Configs[2], []int{verifC17Commit}, verifC17All)
+}
+
+//verif:harness prop=C17 tier=thorough reach=done,readd,deleted,two,evicted,evictrefused,reloaded,crashed unwind=16 budget=2800
+//verif:stub (*github.com/algorand/go-algorand/crypto/merkletrie.merkleTrieCache).encodePage = verifC17EncodePage
+func VerifC17StorageCfg2Evict() {
+	verifC17Storage(verifC17Configs[2], []int{verifC17Evict}, verifC17All)
+}
+
+//verif:harness prop=C17 tier=thorough reach=done,readd,deleted,two,evicted,evictrefused,reloaded,crashed unwind=16 budget=2800
+//verif:stub (*github.com/algorand/go-algorand/crypto/merkletrie.merkleTrieCache).encodePage = verifC17EncodePage
+func VerifC17StorageCfg2EvictFalse() {
+	verifC17Storage(verifC17Configs[2], []int{verifC17EvictFalse}, verifC17All)
+}
+
+//verif:harness prop=C17 tier=thorough reach=done,readd,deleted,two,evicted,evictrefused,reloaded,crashed unwind=16 budget=2800
+//verif:stub (*github.com/algorand/go-algorand/crypto/merkletrie.merkleTrieCache).encodePage = verifC17EncodePage
+func VerifC17StorageCfg2Reload() {
+	verifC17Storage(verifC17Configs[2], []int{verifC17Reload}, verifC17All)
+}
+
+//verif:harness prop=C17 tier=thorough reach=done,readd,deleted,two,evicted,evictrefused,reloaded,crashed unwind=16 budget=2800
+//verif:stub (*github.com/algorand/go-algorand/crypto/merkletrie.merkleTrieCache).encodePage = verifC17EncodePage
+func VerifC17StorageCfg2Crash() {
+	verifC17Storage(verifC17Configs[2], []int{verifC17Crash}, verifC17All)
+}
+
+//verif:harness prop=C17 tier=thorough reach=done,readd,deleted,two,evicted,evictrefused,reloaded,crashed unwind=16 budget=2800
+//verif:stub (*github.com/algorand/go-algorand/crypto/merkletrie.merkleTrieCache).encodePage = verifC17EncodePage
+func VerifC17StorageCfg3None() {
+	verifC17Storage(verifC17Configs[3], []int{verifC17None}, verifC17All)
+}
+
+//verif:harness prop=C17 tier=thorough reach=done,readd,deleted,two,evicted,evictrefused,reloaded,crashed unwind=16 budget=2800
+//verif:stub (*github.com/algorand/go-algorand/crypto/merkletrie.merkleTrieCache).encodePage = verifC17EncodePage
+func VerifC17StorageCfg3Commit() {
+	verifC17Storage(verifC17Configs[3], []int{verifC17Commit}, verifC17All)
+}
+
+//verif:harness prop=C17 tier=thorough reach=done,readd,deleted,two,evicted,evictrefused,reloaded,crashed unwind=16 budget=2800
+//verif:stub (*github.com/algorand/go-algorand/crypto/merkletrie.merkleTrieCache).encodePage = verifC17EncodePage
+func VerifC17StorageCfg3Evict() {
+	verifC17Storage(verifC17Configs[3], []int{verifC17Evict}, verifC17All)
+}
+
+//verif:harness prop=C17 tier=thorough reach=done,readd,deleted,two,evicted,evictrefused,reloaded,crashed unwind=16 budget=2800
+//verif:stub (*github.com/algorand/go-algorand/crypto/merkletrie.merkleTrieCache).encodePage = verifC17EncodePage
+func VerifC17StorageCfg3EvictFalse() {
+	verifC17Storage(verifC17Configs[3], []int{verifC17EvictFalse}, verifC17All)
+}
+
+//verif:harness prop=C17 tier=thorough reach=done,readd,deleted,two,evicted,evictrefused,reloaded,crashed unwind=16 budget=2800
+//verif:stub (*github.com/algorand/go-algorand/crypto/merkletrie.merkleTrieCache).encodePage = verifC17EncodePage
+func VerifC17StorageCfg3Reload() {
+	verifC17Storage(verifC17Configs[3], []int{verifC17Reload}, verifC17All)
+}
+
+//verif:harness prop=C17 tier=thorough reach=done,readd,deleted,two,evicted,evictrefused,reloaded,crashed unwind=16 budget=2800
+//verif:stub (*github.com/algorand/go-algorand/crypto/merkletrie.merkleTrieCache).encodePage = verifC17EncodePage
+func VerifC17StorageCfg3Crash() {
+	verifC17Storage(verifC17Configs[3], []int{verifC17Crash}, verifC17All)
+}
+
+// ---- deeper tries ----
+// Three Adds fill the trie (no storage action in between), then one storage
+// action, then a free fourth operation: the smallest histories in which a
+// re-opened trie allocates into a partly filled page whose other live nodes
+// the operation never touches (deferred page load), and in which an inner
+// node below the root survives a commit untouched. (Seeded bug "deferedPageLoad
+// never set" is caught here and by no 3-operation history.)
+
+// quick: the three filling keys are CONCRETE (three leaves below one inner
+// node; the storage layout, not the key bytes, is what matters here), the
+// fourth operation and its key are the solver's; fan-out configuration [3].
+var verifC17Fill = [][]byte{{0x00, 0x00}, {0x00, 0x20}, {0x00, 0x31}}
+
+// Reload after the third Add: the re-opened trie allocates into the partly
+// filled last page; merkleTrieCache.deferedPageLoad must bring the page's other
+// nodes in before Commit writes the page back.
+//
+//verif:harness prop=C17 tier=quick reach=done,readd,deleted,two,reloaded unwind=16 budget=480
+//verif:stub (*github.com/algorand/go-algorand/crypto/merkletrie.merkleTrieCache).encodePage = verifC17EncodePage
+func VerifC17QuickDeepReload() {
+	verifC17StorageN(verifC17Configs[3], 4, 3, verifC17Fill, nil, []int{verifC17Reload})
+}
+
+// Evict(true) after the third Add: nothing may be lost when the eviction drops
+// the partly filled page the allocator will continue in.
+// FINDING (unmodified tree, c17.walk.node-loads): evict() protects only the
+// root's page. With CachedNodesCount 3 < a page, Add{00 00} Add{00 20}
+// Add{00 31} Evict(true) leaves the three leaves on the evicted, partly filled
+// page 3349 (ids 16745..16747, nextNodeID 16748); Add{10 fd} allocates 16748
+// and 16749 into a fresh in-memory map for page 3349 and touches none of the
+// old leaves; the next Commit stores page 3349 with the new nodes only. The
+// leaves are gone from storage: Delete{00 20} = (false, ErrLoadedPageMissingNode).
+//
+//verif:harness prop=C17 tier=quick reach=done,readd,deleted,two,evicted unwind=16 budget=480
+//verif:stub (*github.com/algorand/go-algorand/crypto/merkletrie.merkleTrieCache).encodePage = verifC17EncodePage
+func VerifC17EvictKeepsAllocationPage() {
+	verifC17StorageN(verifC17Configs[3], 4, 3, verifC17Fill, nil, []int{verifC17Evict})
+}
+
+//verif:harness prop=C17 tier=thorough reach=done,readd,deleted,two unwind=16 budget=2800
+//verif:stub (*github.com/algorand/go-algorand/crypto/merkletrie.merkleTrieCache).encodePage = verifC17EncodePage
+func VerifC17DeepCfg0None() {
+	verifC17StorageN(verifC17Configs[0], 4, 3, nil, nil, []int{verifC17None})
+}
+
+//verif:harness prop=C17 tier=thorough reach=done,readd,deleted,two unwind=16 budget=2800
+//verif:stub (*github.com/algorand/go-algorand/crypto/merkletrie.merkleTrieCache).encodePage = verifC17EncodePage
+func VerifC17DeepCfg0Commit() {
+	verifC17StorageN(verifC17Configs[0], 4, 3, nil, nil, []int{verifC17Commit})
+}
+
+//verif:harness prop=C17 tier=thorough reach=done,readd,deleted,two,evicted unwind=16 budget=2800
+//verif:stub (*github.com/algorand/go-algorand/crypto/merkletrie.merkleTrieCache).encodePage = verifC17EncodePage
+func VerifC17DeepCfg0Evict() {
+	verifC17StorageN(verifC17Configs[0], 4, 3, nil, nil, []int{verifC17Evict})
+}
+
+//verif:harness prop=C17 tier=thorough reach=done,readd,deleted,two,reloaded unwind=16 budget=2800
+//verif:stub (*github.com/algorand/go-algorand/crypto/merkletrie.merkleTrieCache).encodePage = verifC17EncodePage
+func VerifC17DeepCfg0Reload() {
+	verifC17StorageN(verifC17Configs[0], 4, 3, nil, nil, []int{verifC17Reload})
+}
+
+//verif:harness prop=C17 tier=thorough reach=done,readd,deleted,two unwind=16 budget=2800
+//verif:stub (*github.com/algorand/go-algorand/crypto/merkletrie.merkleTrieCache).encodePage = verifC17EncodePage
+func VerifC17DeepCfg1None() {
+	verifC17StorageN(verifC17Configs[1], 4, 3, nil, nil, []int{verifC17None})
+}
+
+//verif:harness prop=C17 tier=thorough reach=done,readd,deleted,two unwind=16 budget=2800
+//verif:stub (*github.com/algorand/go-algorand/crypto/merkletrie.merkleTrieCache).encodePage = verifC17EncodePage
+func VerifC17DeepCfg1Commit() {
+	verifC17StorageN(verifC17Configs[1], 4, 3, nil, nil, []int{verifC17Commit})
+}
+
+//verif:harness prop=C17 tier=thorough reach=done,readd,deleted,two,evicted unwind=16 budget=2800
+//verif:stub (*github.com/algorand/go-algorand/crypto/merkletrie.merkleTrieCache).encodePage = verifC17EncodePage
+func VerifC17DeepCfg1Evict() {
+	verifC17StorageN(verifC17Configs[1], 4, 3, nil, nil, []int{verifC17Evict})
+}
+
+//verif:harness prop=C17 tier=thorough reach=done,readd,deleted,two,reloaded unwind=16 budget=2800
+//verif:stub (*github.com/algorand/go-algorand/crypto/merkletrie.merkleTrieCache).encodePage = verifC17EncodePage
+func VerifC17DeepCfg1Reload() {
+	verifC17StorageN(verifC17Configs[1], 4, 3, nil, nil, []int{verifC17Reload})
+}
+
+//verif:harness prop=C17 tier=thorough reach=done,readd,deleted,two unwind=16 budget=2800
+//verif:stub (*github.com/algorand/go-algorand/crypto/merkletrie.merkleTrieCache).encodePage = verifC17EncodePage
+func VerifC17DeepCfg2None() {
+	verifC17StorageN(verifC17Configs[2], 4, 3, nil, nil, []int{verifC17None})
+}
+
+//verif:harness prop=C17 tier=thorough reach=done,readd,deleted,two unwind=16 budget=2800
+//verif:stub (*github.com/algorand/go-algorand/crypto/merkletrie.merkleTrieCache).encodePage = verifC17EncodePage
+func VerifC17DeepCfg2Commit() {
+	verifC17StorageN(verifC17Configs[2], 4, 3, nil, nil, []int{verifC17Commit})
+}
+
+//verif:harness prop=C17 tier=thorough reach=done,readd,deleted,two,evicted unwind=16 budget=2800
+//verif:stub (*github.com/algorand/go-algorand/crypto/merkletrie.merkleTrieCache).encodePage = verifC17EncodePage
+func VerifC17DeepCfg2Evict() {
+	verifC17StorageN(verifC17Configs[2], 4, 3, nil, nil, []int{verifC17Evict})
+}
+
+//verif:harness prop=C17 tier=thorough reach=done,readd,deleted,two,reloaded unwind=16 budget=2800
+//verif:stub (*github.com/algorand/go-algorand/crypto/merkletrie.merkleTrieCache).encodePage = verifC17EncodePage
+func VerifC17DeepCfg2Reload() {
+	verifC17StorageN(verifC17Configs[2], 4, 3, nil, nil, []int{verifC17Reload})
+}
+
+//verif:harness prop=C17 tier=thorough reach=done,readd,deleted,two unwind=16 budget=2800
+//verif:stub (*github.com/algorand/go-algorand/crypto/merkletrie.merkleTrieCache).encodePage = verifC17EncodePage
+func VerifC17DeepCfg3None() {
+	verifC17StorageN(verifC17Configs[3], 4, 3, nil, nil, []int{verifC17None})
+}
+
+//verif:harness prop=C17 tier=thorough reach=done,readd,deleted,two unwind=16 budget=2800
+//verif:stub (*github.com/algorand/go-algorand/crypto/merkletrie.merkleTrieCache).encodePage = verifC17EncodePage
+func VerifC17DeepCfg3Commit() {
+	verifC17StorageN(verifC17Configs[3], 4, 3, nil, nil, []int{verifC17Commit})
+}
+
+//verif:harness prop=C17 tier=thorough reach=done,readd,deleted,two,evicted unwind=16 budget=2800
+//verif:stub (*github.com/algorand/go-algorand/crypto/merkletrie.merkleTrieCache).encodePage = verifC17EncodePage
+func VerifC17DeepCfg3Evict() {
+	verifC17StorageN(verifC17Configs[3], 4, 3, nil, nil, []int{verifC17Evict})
+}
+
+//verif:harness prop=C17 tier=thorough reach=done,readd,deleted,two,reloaded unwind=16 budget=2800
+//verif:stub (*github.com/algorand/go-algorand/crypto/merkletrie.merkleTrieCache).encodePage = verifC17EncodePage
+func VerifC17DeepCfg3Reload() {
+	verifC17StorageN(verifC17Configs[3], 4, 3, nil, nil, []int{verifC17Reload})
 }
